@@ -226,6 +226,37 @@ def respell(rng, item, p=0.12):
     return item
 
 
+def regroup(rng, item):
+    """Re-group the options of every variant and field: all option metas of the owner are shuffled and re-partitioned
+    into one or several `#[derive_where(..)]` attributes; the item's own attributes are shuffled too.  What the
+    documentation promises (options are independent of order and grouping) is the model's behaviour; the real
+    parser is compared with it on the result."""
+    def owner(bodies):
+        if not bodies or any(b.notlist is not None or b.gens is not None or
+                             any(x == JUNK for x in b.elems) for b in bodies):
+            return bodies
+        metas = [x for b in bodies for x in b.elems if not isinstance(x, str)]
+        if len(metas) < 2:
+            return bodies
+        rng.shuffle(metas)
+        out, cur = [], []
+        for m in metas:
+            cur.append(m)
+            if rng.random() < 0.5:
+                out.append(metas_body(cur, trailing=rng.random() < 0.15))
+                cur = []
+        if cur:
+            out.append(metas_body(cur, trailing=rng.random() < 0.15))
+        return out
+    for v in item.variants:
+        v.bodies = owner(v.bodies)
+        for f in v.fields:
+            f.bodies = owner(f.bodies)
+    if rng.random() < 0.5:
+        rng.shuffle(item.attrs)
+    return item
+
+
 def traits_body(traits, gens=None, comma_before_semi=False, gen_trailing=False):
     """`#[derive_where(T1, T2; G1, G2)]`."""
     b = metas_body(traits, comma_before_semi and gens is not None)
